@@ -457,6 +457,8 @@ impl LogInnerManager {
             //error args
             return Ok(rlist);
         }
+        // from here on the file cursor is moved: the next append has to seek back, also if this read fails
+        self.need_seek_at_write = true;
         let index = self.get_start_index(start);
         let msg_position = {
             let mut file_reader =
@@ -489,7 +491,6 @@ impl LogInnerManager {
             }
             message_reader.append_next_buf(&buf[..read_len]);
         }
-        self.need_seek_at_write = true;
         Ok(rlist)
     }
 
@@ -527,6 +528,8 @@ impl LogInnerManager {
             //error args
             return Ok(());
         }
+        // from here on the file cursor is moved: the next append has to seek back, also if this read fails
+        self.need_seek_at_write = true;
         let index = self.get_start_index(start);
         let msg_position = {
             let mut file_reader =
@@ -563,7 +566,6 @@ impl LogInnerManager {
             }
             message_reader.append_next_buf(&buf[..read_len]);
         }
-        self.need_seek_at_write = true;
         Ok(())
     }
 
